@@ -660,11 +660,36 @@ protected:
             }
             else
             {
+                throwIfNotACharacter(ch);
+
                 start = m_writer.writeLiteral(chars, start, length);
             }
         }
 
         return start;
+    }
+
+    /**
+     * A low surrogate that does not follow a high surrogate (the writers
+     * consume well-formed pairs), U+FFFE, U+FFFF and NUL are not XML
+     * characters and have no escape.
+     */
+    void
+    throwIfNotACharacter(XalanDOMChar   ch)
+    {
+        if (isUTF16LowSurrogate(ch) == true)
+        {
+            throwInvalidUTF16SurrogateException(
+                ch,
+                getMemoryManager());
+        }
+        else if (ch == 0 || ch >= 0xFFFEu)
+        {
+            throwInvalidXMLCharacterException(
+                ch,
+                m_version,
+                getMemoryManager());
+        }
     }
 
     void
@@ -690,6 +715,8 @@ protected:
         const XalanDOMChar  ch = chars[start];
 
         assert(m_charPredicate.range(ch) == true);
+
+        throwIfNotACharacter(ch);
 
         if (XMLVersion == XML_VERSION_1_1 &&
             XalanUnicode::charLSEP == ch)
@@ -797,6 +824,8 @@ protected:
                 }
                 else
                 {
+                    throwIfNotACharacter(theChar);
+
                     i = m_writer.writeCDATAChar(chars, i, length, outsideCDATA);
                 }
             }
